@@ -154,7 +154,7 @@ class HSInit(Harness):
         lbs, ubs = np.asarray(_raw(st["lb_search"])), np.asarray(_raw(st["ub_search"]))
         for d in range(D):
             out.ob("search_bounds_inside_hard_box", O.And(O.le(tl[0, d], lbs[0, d]), O.le(ubs[0, d], tu[0, d])))
-        if cons:
+        if cons and cons_calls:
             Xq = cons_calls[0][0]
             xo = np.asarray(_raw(vt.inverse_transf(np.atleast_2d(self_.u) if eng.concrete else self_.u.reshape(1, -1))))
             out.ob("constraint_argument_is_inverse_transform_of_u0", O.rows_eq(Xq[0], xo[0], 1e-9))
